@@ -1,5 +1,6 @@
 // Native replay for C09-2 (overlaid at the end of crates/astria-conductor/src/celestia/block_verifier.rs of a scratch copy):
-// real ed25519 keys; POWERS = voting power per validator; VOTES = per commit signature: None (absent) or Some((validator index, signature valid?)).
+// real ed25519 keys; POWERS = voting power per validator; VOTES = per commit signature (kind, validator index, signed message):
+// kind 0 absent / 1 vote for the block / 2 vote for nil; signed message 0 something else / 1 the precommit for THIS block / 2 the precommit for nil.
 #[cfg(test)]
 mod verif_replay_c09 {
     use sequencer_client::{
@@ -14,7 +15,7 @@ mod verif_replay_c09 {
     #[test]
     fn verif_replay_c09() {
         let powers: Vec<u64> = vec![VERIF_POWERS];
-        let votes: Vec<Option<(usize, bool)>> = vec![VERIF_VOTES];
+        let votes: Vec<(u8, usize, u8)> = vec![VERIF_VOTES];
         let chain_id: tendermint::chain::Id = "test-chain".parse().unwrap();
         let height = 5u32;
         let keys: Vec<astria_core::crypto::SigningKey> = (0..powers.len()).map(|i| astria_core::crypto::SigningKey::from([i as u8 + 1; 32])).collect();
@@ -33,35 +34,40 @@ mod verif_replay_c09 {
             })
             .collect();
         let timestamp = tendermint::Time::unix_epoch();
-        let canonical_vote = tendermint::vote::CanonicalVote {
-            vote_type: tendermint::vote::Type::Precommit,
-            height: height.into(),
-            round: 0u16.into(),
-            block_id: None,
-            timestamp: Some(timestamp),
-            chain_id: chain_id.clone(),
+        let block_id = tendermint::block::Id {
+            hash: tendermint::Hash::Sha256([7u8; 32]),
+            part_set_header: tendermint::block::parts::Header::new(1, tendermint::Hash::Sha256([8u8; 32])).unwrap(),
         };
-        let message = tendermint_proto::types::CanonicalVote::from(canonical_vote).encode_length_delimited_to_vec();
+        let message_for = |block_id: Option<tendermint::block::Id>| {
+            let canonical_vote = tendermint::vote::CanonicalVote {
+                vote_type: tendermint::vote::Type::Precommit,
+                height: height.into(),
+                round: 0u16.into(),
+                block_id,
+                timestamp: Some(timestamp),
+                chain_id: chain_id.clone(),
+            };
+            tendermint_proto::types::CanonicalVote::from(canonical_vote).encode_length_delimited_to_vec()
+        };
+        let block_message = message_for(Some(block_id));
+        let nil_message = message_for(None);
         let signatures: Vec<CommitSig> = votes
             .iter()
-            .map(|v| match v {
-                None => CommitSig::BlockIdFlagAbsent,
-                Some((j, valid)) => {
-                    let msg: Vec<u8> = if *valid { message.clone() } else { b"some other message".to_vec() };
-                    let signature = keys[*j].sign(&msg);
-                    CommitSig::BlockIdFlagCommit {
-                        validator_address: infos[*j].address,
-                        timestamp,
-                        signature: Some(signature.to_bytes().as_ref().try_into().unwrap()),
-                    }
+            .map(|(kind, j, signed)| {
+                let msg: Vec<u8> = match signed { 1 => block_message.clone(), 2 => nil_message.clone(), _ => b"some other message".to_vec() };
+                let signature = Some(keys[*j].sign(&msg).to_bytes().as_ref().try_into().unwrap());
+                match kind {
+                    1 => CommitSig::BlockIdFlagCommit { validator_address: infos[*j].address, timestamp, signature },
+                    2 => CommitSig::BlockIdFlagNil { validator_address: infos[*j].address, timestamp, signature },
+                    _ => CommitSig::BlockIdFlagAbsent,
                 }
             })
             .collect();
         let commit = tendermint::block::Commit {
             height: height.into(),
             round: 0u16.into(),
+            block_id,
             signatures,
-            ..Default::default()
         };
         let total = i32::try_from(infos.len()).unwrap();
         let set = validators::Response::new(height.into(), infos, total);
